@@ -128,6 +128,9 @@ type CallLog struct {
 	Offers []string
 	Detail string
 	Err    string
+	// FailedTask: the task a KILL call that failed at the HTTP level was meant for (Tasks stays empty:
+	// the master never saw the call)
+	FailedTask string
 }
 
 type update struct {
@@ -287,6 +290,9 @@ func (c *caller) Call(ctx context.Context, call *scheduler.Call) (mesos.Response
 	}()
 	if fail {
 		lg.Err = "http error (injected)"
+		if call.GetType() == scheduler.Call_KILL {
+			lg.FailedTask = call.GetKill().GetTaskID().Value
+		}
 		simrt.Count("fault.mesos_call_failed." + typ)
 		return nil, errors.New("mesos: 503 service unavailable (simulated)")
 	}
